@@ -812,7 +812,7 @@ func c47BuildBoard(g *c47TextGen, depth int, name string) *d2target.Diagram {
 			s.Type = d2target.ShapeSQLTable
 			for j := 1 + r.Intn(3); j > 0; j-- {
 				col := d2target.SQLColumn{Name: d2target.Text{Label: g.word(6), LabelWidth: 30, LabelHeight: 20}, Type: d2target.Text{Label: g.word(4), LabelWidth: 30, LabelHeight: 20}}
-				for _, k := range []string{"primary_key", "foreign_key", "unique", g.safeWord()} {
+				for _, k := range []string{"primary_key", "foreign_key", "unique", g.word(5)} {
 					if r.Chance(0.3) {
 						col.Constraint = append(col.Constraint, k)
 					}
